@@ -19,7 +19,6 @@ use vcommon::{arg_or, for_each_payload, open_input};
 
 const PORT: u16 = 9999;
 const TICK_MS: u64 = 500;
-const TIMEOUT_MS: u64 = 2000;
 
 #[repr(C)]
 #[derive(Serialize, Deserialize, Archive, Debug, Clone)]
@@ -109,15 +108,17 @@ fn run_schedule(sched: &[Value], slow_ms: u64, seed: u64) -> Result<(Vec<Observe
                 "tick" => tokio::time::sleep(Duration::from_millis(TICK_MS)).await,
                 "send" => {
                     let id = s["r"].as_u64().unwrap();
-                    let with_timeout = s["timeout"].as_bool().unwrap();
+                    // the timeout of this request: a number of ticks (0 = none)
+                    let timeout_ms = s["timeout"].as_u64().unwrap() * TICK_MS;
+                    let with_timeout = timeout_ms > 0;
                     let mut client = RpcClient::<Echo>::new(channel.clone());
                     if with_timeout {
-                        client.set_timeout(Duration::from_millis(TIMEOUT_MS));
+                        client.set_timeout(Duration::from_millis(timeout_ms));
                     }
                     // every other request goes through a clone of the configured client, the usual way of sharing one
                     // client between tasks: a clone answers to the same configuration
                     let client = if id % 2 == 1 { client.clone() } else { client };
-                    sent.push((id, if with_timeout { TIMEOUT_MS } else { 0 }));
+                    sent.push((id, timeout_ms));
                     let obs = obs.clone();
                     tasks.push(tokio::spawn(async move {
                         let start = tokio::time::Instant::now();
@@ -128,10 +129,10 @@ fn run_schedule(sched: &[Value], slow_ms: u64, seed: u64) -> Result<(Vec<Observe
                             Ok(view) => {
                                 let want: Vec<u8> = payload_for(id).iter().rev().cloned().collect();
                                 let pong: Pong = view.deserialize_view().expect("deserialize reply");
-                                Observed { id, timeout_ms: if with_timeout { TIMEOUT_MS } else { 0 }, outcome: "reply".into(),
+                                Observed { id, timeout_ms, outcome: "reply".into(),
                                            reply_id: pong.id, payload_ok: pong.payload == want, elapsed_ms }
                             },
-                            Err(st) => Observed { id, timeout_ms: if with_timeout { TIMEOUT_MS } else { 0 },
+                            Err(st) => Observed { id, timeout_ms,
                                                   outcome: match st.code {
                                                       ErrorCode::ConnectionError => "ConnectionError".into(),
                                                       ErrorCode::Timeout => "Timeout".into(),
@@ -147,7 +148,7 @@ fn run_schedule(sched: &[Value], slow_ms: u64, seed: u64) -> Result<(Vec<Observe
             }
         }
         // give everything that can still finish the time to do so, then stop
-        tokio::time::sleep(Duration::from_millis(6 * TICK_MS)).await;
+        tokio::time::sleep(Duration::from_millis(8 * TICK_MS)).await;
         let done: Vec<u64> = obs.lock().unwrap().iter().map(|o| o.id).collect();
         for (id, t) in sent {
             if !done.contains(&id) {
@@ -176,12 +177,12 @@ fn random_schedule(rng: &mut StdRng) -> Vec<Value> {
             1 => { out.push(json!({"e": "hold"})); link_up = false; },
             2 if !link_up => { out.push(json!({"e": "repair"})); link_up = true; },
             3 if !link_up => { out.push(json!({"e": "release"})); link_up = true; },
-            4 | 5 | 6 => { out.push(json!({"e": "send", "r": next_id, "timeout": rng.gen_bool(0.6)})); next_id += 1; },
+            4 | 5 | 6 => { let t = [0u64, 0, 1, 2, 4, 4, 6][rng.gen_range(0..7)]; out.push(json!({"e": "send", "r": next_id, "timeout": t})); next_id += 1; },
             _ => out.push(json!({"e": "tick"})),
         }
     }
     if next_id == 1 {
-        out.push(json!({"e": "send", "r": 1, "timeout": true}));
+        out.push(json!({"e": "send", "r": 1, "timeout": 4}));
     }
     out
 }
